@@ -645,6 +645,16 @@ func runSchedule(scn *Scenario, pol schedPolicy) *SchedRun {
 			run.Logs = append(run.Logs, [2]string{r[0], r[1]})
 		}
 	}
+	if !cs.stuck && !cs.cut && scn.Hash {
+		// C09: under any schedule the stored chain is linear in id order (every log chains from the log with the next smaller id)
+		sess := st.PG.NewSession()
+		if rows, err := readHashRows(sess); err == nil {
+			for _, m := range monC09Rows(rows) {
+				run.Viol = append(run.Viol, schedViolation{"C09", m + " [sched]"})
+			}
+		}
+		sess.Close()
+	}
 	if !cs.stuck && !cs.cut {
 		st.SQL.Close()
 	}
